@@ -588,11 +588,17 @@ func (p *PsUnpacker) onAvPacketWrap(packet *base.AvPacket) {
 	p.onAvPacketWrapCount++
 	//nazalog.Debugf("PsUnpacker > onAvPacketWrap. packet=%s", packet.DebugString())
 	if packet.IsVideo() {
-		if len(packet.Payload) < 5 {
+		// the nalu header follows the start code: zero bytes, then 01 (3-byte, 4-byte or longer start codes)
+		hdr := 0
+		for hdr < len(packet.Payload) && packet.Payload[hdr] == 0 {
+			hdr++
+		}
+		hdr++
+		if hdr >= len(packet.Payload) {
 			// start code without a nalu header behind it
 			return
 		}
-		typ := h2645.ParseNaluType(packet.PayloadType == base.AvPacketPtAvc, packet.Payload[4])
+		typ := h2645.ParseNaluType(packet.PayloadType == base.AvPacketPtAvc, packet.Payload[hdr])
 		//nazalog.Debugf("PsUnpacker onAvPacketWrap. type=%d", typ)
 		// TODO(chef): [opt] 等待sps等信息再开始回调，这个逻辑不完整简化了 202209
 		if p.waitSpsFlag {
